@@ -385,6 +385,18 @@ func (c05) docTrip(c *fw.Case) {
 	if m, ok := doc.(map[string]any); ok && draft == gen.D7 {
 		m["$schema"] = gen.Schema7URI
 	}
+	// a third of the `false` subschemas as the object {"not": {}} (same meaning), half of those with an unknown keyword beside
+	// it: the boolean folding of Marshal must not swallow either
+	doc = mapSchemas(doc, nil, func(n any, p []string) any {
+		if b, ok := n.(bool); ok && !b && len(p) > 0 && r.IntN(3) == 0 {
+			m := map[string]any{"not": gen.Pick(r, []any{map[string]any{}, true})}
+			if r.IntN(2) == 0 {
+				m[gen.Pick(r, unknownKeys)] = gen.Pick(r, []any{"never valid", json.Number("1"), []any{}, nil})
+			}
+			return m
+		}
+		return n
+	})
 	// documents with an empty-but-present enum are the pinned known finding KF-C05-1 (Marshal drops it): not generated here
 	doc = mapSchemas(doc, nil, func(n any, _ []string) any {
 		if m, ok := n.(map[string]any); ok {
